@@ -55,6 +55,23 @@ func startDoc(r *fw.Rand, deep bool) (map[string]interface{}, string) {
 		}
 		doc[name] = gen.RandJSONValue(r, d)
 	}
+	if r.Chance(1, 4) {
+		// further members that look like key / service lists under the names external DID documents use: they are ordinary members
+		// of the internal document and never stand in for publicKey / service
+		for _, name := range genPick(r, []string{"verificationMethod", "authentication", "publicKeys", "services", "keyAgreement", "serviceEndpoints"}, r.Range(1, 2)) {
+			if r.Bool() {
+				doc[name] = gen.RandKeys(r, r.Range(1, 2))
+			} else {
+				doc[name] = gen.RandServices(r, r.Range(1, 2))
+			}
+		}
+		if r.Bool() {
+			delete(doc, "publicKey")
+		}
+		if r.Bool() {
+			delete(doc, "service")
+		}
+	}
 	if deep {
 		doc["nested"] = map[string]interface{}{"l1": map[string]interface{}{"l2": []interface{}{map[string]interface{}{"l3": "v"}, 1, []interface{}{2, 3}}}}
 	}
